@@ -315,6 +315,21 @@ func (m *monitor) pipeline(idx int, dv *dirVocab) {
 	m.runAll(dv.name+"-p1", "batch", p1, judge)
 
 	heads := pickHeads(p1, ds.acc, m.b.p2heads)
+	// for directives that accept a network peer among their arguments: the
+	// peer under every URL scheme casket knows a transport for (the scheme
+	// decides which transport the setup builds and configures)
+	namesPeer := false
+	for _, k := range p1 {
+		if ds.acc[k.ID] && !k.Block && strings.Contains(strings.Join(k.Args, " "), "127.0.0.1:1") {
+			namesPeer = true
+		}
+	}
+	if namesPeer {
+		for _, sch := range []string{"https://", "quic://", "srv://", "srv+https://", "unix:/"} {
+			heads = append(heads, []string{"/", sch + "127.0.0.1:1"})
+		}
+		c.Count("directives_with_peer_scheme_heads", 1)
+	}
 	p2 := ds.number(genPhase2(c, dv, heads, m.b))
 	m.runAll(dv.name+"-p2", "batch", p2, judge)
 
